@@ -44,6 +44,7 @@ class Huff:
         s.reconsts = 0
         s.tie_exchanges = 0
         s.exchanges = 0
+        s.max_code_bits = 0
 
     def reconst(s):
         s.reconsts += 1
@@ -121,6 +122,8 @@ class Huff:
             if k == R:
                 break
         # bits were collected leaf-to-root, least significant first == root-to-leaf MSB first
+        if n > s.max_code_bits:
+            s.max_code_bits = n
         bw.put(acc, n)
         s.update(c)
 
@@ -139,4 +142,4 @@ def encode(cmds, pad_bit=0):
             hi = p >> 6
             bw.put(P_CODE[hi], P_LEN[hi])
             bw.put(p & 63, 6)
-    return bw.bytes(pad_bit), {'reconsts': h.reconsts, 'tie_exchanges': h.tie_exchanges, 'exchanges': h.exchanges}
+    return bw.bytes(pad_bit), {'reconsts': h.reconsts, 'tie_exchanges': h.tie_exchanges, 'exchanges': h.exchanges, 'max_code_bits': h.max_code_bits}
